@@ -77,7 +77,10 @@ type recSink struct {
 	// fault injection
 	failFrom int  // Write number from which Write fails (0: never)
 	syncFail bool // Sync is recorded but returns an error
-	attempts int
+	// shortCount: the sink stores every byte but reports one byte less, without an error (a wrapper
+	// that under-reports its count; a multi-syncer legitimately returns the smallest count of its members)
+	shortCount bool
+	attempts   int
 }
 
 func (s *recSink) Write(p []byte) (int, error) {
@@ -97,6 +100,9 @@ func (s *recSink) Write(p []byte) (int, error) {
 	s.data = append(s.data, p...)
 	s.writes++
 	s.synced = false
+	if s.shortCount && len(p) > 0 {
+		return len(p) - 1, nil
+	}
 	return len(p), nil
 }
 
@@ -275,6 +281,21 @@ func coreKinds() []coreKind {
 		{name: "io-buffered-default-size", cond: condConst(condEnabled), build: buffered(0)},
 		{name: "io-buffered-size4096", cond: condConst(condEnabled), build: buffered(4096)},
 		{name: "io-buffered-size16", cond: condConst(condEnabled), build: buffered(16)},
+		{name: "io-multi(buffered,short-count-sink)", cond: condConst(condEnabled), build: func(w *world, _ zapcore.Level, _ string) (zapcore.Core, []zap.Option) {
+			// one IO core over two destinations: a buffered one and one that under-reports its byte count
+			// (no error): the count is not an error, and the terminal Sync still has to reach the buffered one
+			under := w.newSink("underlying", always)
+			bws := &zapcore.BufferedWriteSyncer{WS: under, Size: 4096, FlushInterval: time.Hour}
+			w.cleanup = append(w.cleanup, func() { _ = bws.Stop() })
+			short := w.newSink("short-count", always)
+			short.shortCount = true
+			return zapcore.NewCore(newEncoder(), zapcore.NewMultiWriteSyncer(bws, short), zapcore.DebugLevel), nil
+		}},
+		{name: "io-short-count-sink", cond: condConst(condEnabled), build: func(w *world, _ zapcore.Level, _ string) (zapcore.Core, []zap.Option) {
+			short := w.newSink("short-count", always)
+			short.shortCount = true
+			return zapcore.NewCore(newEncoder(), zapcore.Lock(short), zapcore.DebugLevel), nil
+		}},
 		{name: "sampler-drops-all(first=0,thereafter=0)", cond: condConst(condSampled), build: func(w *world, _ zapcore.Level, _ string) (zapcore.Core, []zap.Option) {
 			inner := zapcore.NewCore(newEncoder(), zapcore.Lock(w.newSink("a", never)), zapcore.DebugLevel)
 			return zapcore.NewSamplerWithOptions(inner, time.Hour, 0, 0), nil
